@@ -1,2 +1,51 @@
+"""C07, command-line family: every font file the real `nanoemoji` and `maximum_color` commands write."""
+import shutil
+
+from vmc.core import listing
+from vmc.core.listing import ok, bad
+from vmc.oracles import structure
+
+NANO = ["glyf_colr_1", "glyf_colr_0", "cff2_colr_1", "picosvg", "untouchedsvgz", "cbdt", "sbix"]
+
+
+def execute(case):
+    from vmc.drive import cli, conformance
+
+    w = cli.mkscratch("c07c")
+    try:
+        fmt = case["fmt"]
+        over = {"color_format": fmt, "output_file": "Font.otf" if fmt.startswith("cff") else "Font.ttf", "keep_glyph_names": case["keep"]}
+        if fmt in ("cbdt", "sbix"):
+            over.update(use_pngquant=False)
+        srcs = conformance.base_sources()
+        if case.get("seq"):
+            srcs = srcs + [("emoji_ue000_200d_e001.svg", srcs[0][1])]
+        files = cli.write_sources(w / "src", srcs)
+        r = cli.nanoemoji(w, cli.flags_for(over) + [str(f) for f in files])
+        out = w / "build" / over["output_file"]
+        if r.returncode != 0 or not out.exists():
+            return [bad("C07.cli-build", f"nanoemoji {fmt}: exit {r.returncode}: {(r.stderr or '')[-300:]}")]
+        vs = [bad(c, f"nanoemoji {fmt}: {d}") for c, d in structure.check(out.read_bytes(), want_names=case["keep"])[:5]]
+        if case.get("maximum_color") and not vs:
+            args = ["--build_dir", str(w / "mc"), "--output_file", "Max.ttf"] + (["--bitmaps"] if case["maximum_color"] == "bitmaps" else []) + \
+                   (["--keep_glyph_names"] if case["keep"] else ["--nokeep_glyph_names"])
+            r2 = cli.maximum_color(w, args + [str(out)])
+            out2 = w / "mc" / "Max.ttf"
+            if r2.returncode != 0 or not out2.exists():
+                return [bad("C07.cli-build", f"maximum_color on the {fmt} font: exit {r2.returncode}: {(r2.stderr or '')[-300:]}")]
+            vs += [bad(c, f"maximum_color({fmt}): {d}") for c, d in structure.check(out2.read_bytes(), want_names=case["keep"])[:5]]
+        return vs or [ok("C07.valid", f"cli:{fmt}:{case.get('maximum_color') or '-'}")]
+    finally:
+        shutil.rmtree(w, ignore_errors=True)
+
+
 def run(report, tier):
-    pass
+    cases = []
+    for fmt in NANO:
+        for keep in ((False, True) if tier == "thorough" else (False,)):
+            cases.append({"kind": "cli", "fmt": fmt, "keep": keep, "seq": fmt in ("picosvg", "glyf_colr_1", "cbdt")})
+    for fmt, mc in (("glyf_colr_1", "plain"), ("picosvg", "plain"), ("glyf_colr_0", "bitmaps"), ("untouchedsvgz", "plain")):
+        for keep in (True, False):
+            cases.append({"kind": "cli", "fmt": fmt, "keep": keep, "maximum_color": mc, "seq": True})
+    listing.run(report, cases, execute, timeout=900, jobs=6)
+    report.extra["cli_fonts_checked"] = len(cases)
